@@ -488,3 +488,76 @@ def prefix_after_rewrite_rule(chk, prog, rule="ORDER"):
         if not dom.viol:
             chk.ok(rule, "%s/%s" % (rule, fn), loc_str(f), "in %s no operand is rewritten after the prefix bits were derived from it" % fn)
     chk.floor("prefix derivation sites", n, 4)
+
+
+# --------------------------------------------------------------------------
+# OUTKILL: a decision stored through an out-parameter is not overwritten unread (C02 C16)
+# --------------------------------------------------------------------------
+
+def _outparam_writes(prog, f, pname):
+    """(kills at entry, writes conditionally) for `*pname` in f"""
+    body = prog.body(f)
+
+    def is_store(m):
+        if m.get("kind") == "BinaryOperator" and m.get("opcode") == "=":
+            l = strip(kids(m)[0], casts=True)
+            if l.get("kind") == "UnaryOperator" and l.get("opcode") == "*" and ref_name(strip(kids(l)[0], casts=True)) == pname:
+                return not any(d.get("kind") == "DeclRefExpr" and ref_name(d) == pname for d in walk(kids(m)[1]))
+        return False
+    kills = False
+    for st in kids(body):
+        if st.get("kind") in ("IfStmt", "WhileStmt", "ForStmt", "DoStmt", "SwitchStmt", "ReturnStmt"):
+            break
+        if is_store(strip(st)):
+            kills = True
+            break
+        if any(d.get("kind") == "DeclRefExpr" and ref_name(d) == pname for d in walk(st)):
+            break       # read or handed on before being overwritten
+    cond = False
+    for m, parents in walk_with_parents(body):
+        if is_store(m) and any(p.get("kind") in ("IfStmt", "WhileStmt", "ForStmt", "DoStmt", "SwitchStmt", "ConditionalOperator") for p in parents):
+            cond = True
+    return kills, cond
+
+
+def outparam_kill_rule(chk, prog, rule="OUTKILL"):
+    """when two calls in a row receive the address of the same local, the later callee must not start by overwriting what the
+    earlier one may have decided: that decision would never be read (the calls are in the wrong order, or the reset is misplaced)"""
+    lib = prog.lib_functions()
+    n = 0
+    for fn, f in sorted(lib.items()):
+        for comp in walk(prog.body(f)):
+            if comp.get("kind") != "CompoundStmt":
+                continue
+            seq = kids(comp)
+            # (statement index, call, variable, callee parameter)
+            uses = []
+            for i, st in enumerate(seq):
+                for c in walk(st):
+                    if c.get("kind") == "CallExpr" and callee_name(c) in lib:
+                        ps = prog.params(lib[callee_name(c)])
+                        for p, a in zip(ps, call_args(c)):
+                            a0 = strip(a, casts=True)
+                            if a0.get("kind") == "UnaryOperator" and a0.get("opcode") == "&" and \
+                                    strip(kids(a0)[0], casts=True).get("kind") == "DeclRefExpr" and "char" not in qtype(p):
+                                uses.append((i, c, ref_name(strip(kids(a0)[0], casts=True)), p["name"]))
+            for (i1, c1, v1, p1) in uses:
+                for (i2, c2, v2, p2) in uses:
+                    if v1 != v2 or i2 <= i1:
+                        continue
+                    # no reference to the variable in between
+                    between = any(d.get("kind") == "DeclRefExpr" and ref_name(d) == v1 for st in seq[i1 + 1:i2] for d in walk(st))
+                    if between:
+                        continue
+                    if any(u[2] == v1 and i1 < u[0] < i2 for u in uses):
+                        continue
+                    n += 1
+                    k2, _ = _outparam_writes(prog, lib[callee_name(c2)], p2)
+                    _, w1 = _outparam_writes(prog, lib[callee_name(c1)], p1)
+                    chk.require(not (k2 and w1), rule, "%s/%s/%s/%s->%s" % (rule, fn, v1, callee_name(c1), callee_name(c2)), loc_str(c2),
+                                "what %s() decides for %s is still there when it is used (%s() does not begin by resetting it)"
+                                % (callee_name(c1), v1, callee_name(c2)),
+                                "%s() stores into *%s under a condition and %s(), called next with the same variable, starts with an unconditional *%s = ..."
+                                % (callee_name(c1), p1, callee_name(c2), p2))
+    chk.floor("consecutive calls sharing an out-parameter", n, 2)
+    return n
